@@ -13,11 +13,12 @@ fn eval7(c: &[F7], x: F7) -> F7 {
     while i > 0 { i -= 1; acc = acc * x + c[i]; }
     acc
 }
-fn any_vec7(max: usize) -> Vec<F7> {
-    let n: usize = kani::any();
-    kani::assume(n <= max);
+/// a coefficient vector of FIXED length `len` with symbolic entries: shorter polynomials are covered through
+/// symbolic leading zeros (from_coefficients_vec truncates them), which keeps CBMC's loops concrete
+fn any_vec7(len: usize) -> Vec<F7> {
     let mut v = Vec::new();
-    for _ in 0..n { v.push(any_fp::<P7>()); }
+    let mut i = 0;
+    while i < len { v.push(any_fp::<P7>()); i += 1; }
     v
 }
 fn canonical(p: &DensePolynomial<F7>) -> bool { p.coeffs.last().map_or(true, |c| !c.is_zero()) }
@@ -77,10 +78,9 @@ fn eval17(c: &[F17], x: F17) -> F17 {
 #[kani::proof]
 #[kani::unwind(8)]
 fn c08_vanishing_poly_f17_coset() {
-    let n: usize = kani::any();
-    kani::assume(n <= 4);
     let mut a = Vec::new();
-    for _ in 0..n { a.push(any_fp::<P17>()); }
+    let mut i = 0;
+    while i < 4 { a.push(any_fp::<P17>()); i += 1; }
     let pa = DensePolynomial::from_coefficients_vec(a.clone());
     let h = any_fp::<P17>();
     kani::assume(!h.is_zero());
@@ -112,10 +112,12 @@ macro_rules! fft_harness {
             let mut k = 0;
             while k < $size { if k > 0 { assert!(!p.is_one()); } p *= g; k += 1; }
             assert!(p.is_one());
-            let n: usize = kani::any();
-            kani::assume(n <= $size);
+            // input length fixed to the domain size (shorter inputs = symbolic trailing zeros) or to half of it
+            let short: bool = kani::any();
+            let n: usize = if short { $size / 2 } else { $size };
             let mut c = Vec::new();
-            for _ in 0..n { c.push(any_fp::<P17>()); }
+            let mut q = 0;
+            while q < n { c.push(any_fp::<P17>()); q += 1; }
             let ev = dom.fft(&c);
             assert!(ev.len() == $size);
             let i: usize = kani::any();
